@@ -1165,6 +1165,178 @@ fn liquidation_boundary(
     }
 }
 
+/// Directed drill: a borrower owes two banks that BOTH carry an e-mode entry for its collateral's
+/// tag, with different weights (the lower-maintenance one has init < maint), so the account's
+/// e-mode is the per-field minimum of the two.  The collateral price is then put 3 % above the
+/// maintenance boundary of the independent model, and somebody tries a classic liquidation: the
+/// account is healthy and must be refused.  (Which of the two banks is merged later depends on the
+/// random bank keys.)
+fn drill_emode_two_debt_liquidation(sim: &mut Sim, ctx: &mut Ctx) -> Option<Tx> {
+    use marginfi_type_crate::types::{EmodeEntry, RiskTier};
+    let gi = 0usize;
+    let g = ctx.world.groups.get(gi)?.clone();
+    let plain: Vec<BankInfo> = g.banks.iter().filter(|b| b.staked.is_none()).cloned().collect();
+    let mut x: Option<(BankInfo, f64)> = None;
+    let mut debts: Vec<BankInfo> = Vec::new();
+    for b in &plain {
+        let bank = model::bank_of(&sim.store, &b.keys.bank)?;
+        if bank.config.risk_tier != RiskTier::Collateral || bank.config.asset_tag != 0 {
+            continue;
+        }
+        let ai: f64 = i80(bank.config.asset_weight_init).to_num();
+        let am: f64 = i80(bank.config.asset_weight_maint).to_num();
+        if x.is_none() && b.oracle != OracleKind::Fixed && ai > 0.2 && am <= 0.75 {
+            x = Some((b.clone(), am));
+        } else if debts.len() < 2 {
+            debts.push(b.clone());
+        }
+    }
+    let (x, am) = x?;
+    if debts.len() < 2 || ctx.world.users.len() < 3 {
+        return None;
+    }
+    let (b1, b2) = (debts[0].clone(), debts[1].clone());
+    let lender = ctx.world.users[0].clone();
+    let borrower = ctx.world.users[1].clone();
+    let liquidator = ctx.world.users[2].clone();
+    let acc_of = |u: &world::UserInfo| u.maccounts.iter().find(|(g2, _)| *g2 == gi).map(|(_, m)| *m);
+    let (l_acc, b_acc, q_acc) = (acc_of(&lender)?, acc_of(&borrower)?, acc_of(&liquidator)?);
+    // only on a borrower without positions, so that the two debts are its only debts
+    if !active_balances(&model::account_of(&sim.store, &b_acc)?).is_empty() {
+        return None;
+    }
+    sim.stats.fault("drill_emode_two_debt_liquidation");
+    // e-mode: tag on the collateral bank, entries on both debt banks
+    let xbank = model::bank_of(&sim.store, &x.keys.bank)?;
+    let tag = if xbank.emode.emode_tag != 0 { xbank.emode.emode_tag } else { ctx.rng.range(1, 5) as u16 };
+    if xbank.emode.emode_tag == 0 {
+        sim.apply(Event::Tx(Tx::one("emode_admin", ix::configure_bank_emode(g.key, g.admins.emode, x.keys.bank, tag, xbank.emode.emode_config.entries))));
+    }
+    let lo = (am + 0.02, am + 0.10);
+    let hi = (am + 0.06, am + 0.18);
+    let (e1, e2) = if ctx.rng.chance(1, 2) { (lo, hi) } else { (hi, lo) };
+    for (b, (wi, wm)) in [(&b1, e1), (&b2, e2)] {
+        let bank = model::bank_of(&sim.store, &b.keys.bank)?;
+        let mut entries = bank.emode.emode_config.entries;
+        let slot = entries
+            .iter()
+            .position(|e| e.collateral_bank_emode_tag == tag)
+            .or_else(|| entries.iter().position(|e| e.collateral_bank_emode_tag == 0))
+            .unwrap_or(0);
+        entries[slot] = EmodeEntry {
+            collateral_bank_emode_tag: tag,
+            flags: 0,
+            pad0: [0; 5],
+            asset_weight_init: world::w(wi),
+            asset_weight_maint: world::w(wm),
+        };
+        entries.sort_by_key(|e| e.collateral_bank_emode_tag);
+        let o = sim.apply(Event::Tx(Tx::one("emode_admin", ix::configure_bank_emode(g.key, g.admins.emode, b.keys.bank, bank.emode.emode_tag, entries))))?;
+        if !o.ok() {
+            return None;
+        }
+    }
+    // liquidity in both debt banks, then the two debts, collateral sized from them
+    let mut debt_micro = 0f64;
+    let mut plan: Vec<(BankInfo, u64, Pubkey)> = Vec::new();
+    for b in [&b1, &b2] {
+        let l_ta = lender.tokens.get(&b.keys.mint).cloned()?;
+        let d = (token_balance(&sim.store, &l_ta) / 1000).clamp(10_000, 1_000_000_000).min(token_balance(&sim.store, &l_ta));
+        sim.apply(Event::Tx(Tx::one("user", ix::deposit(&b.keys, l_acc, lender.authority, l_ta, d, None))));
+        let bank = model::bank_of(&sim.store, &b.keys.bank)?;
+        let take = (d / 4).max(1);
+        debt_micro += take as f64 * b.price_micro as f64 / 10f64.powi(bank.mint_decimals as i32);
+        plan.push((b.clone(), take, borrower.tokens.get(&b.keys.mint).cloned()?));
+    }
+    let b_ta_x = borrower.tokens.get(&x.keys.mint).cloned()?;
+    let xbank = model::bank_of(&sim.store, &x.keys.bank)?;
+    let ai: f64 = i80(xbank.config.asset_weight_init).to_num();
+    let want = 6.0 / ai.max(0.05) * debt_micro * 10f64.powi(xbank.mint_decimals as i32) / (x.price_micro.max(1) as f64);
+    let c_max = token_balance(&sim.store, &b_ta_x) / 2;
+    if !(want.is_finite() && want >= 1.0 && want < c_max as f64) {
+        return None;
+    }
+    let c = want.ceil() as u64;
+    sim.apply(Event::Tx(Tx::one("user", ix::deposit(&x.keys, b_acc, borrower.authority, b_ta_x, c, None))));
+    for (b, take, ta) in &plan {
+        let rm = risk_metas(&sim.store, &b_acc, Some(b.keys.bank), None);
+        let o = sim.apply(Event::Tx(Tx::one("user", ix::borrow(&b.keys, b_acc, borrower.authority, *ta, *take, rm))))?;
+        if !o.ok() {
+            return None;
+        }
+        if sim.violated() && sim.stop_on_violation {
+            return None;
+        }
+    }
+    sim.stats.fault("drill_emode_two_debts_open");
+    // collateral price: 3 % above the model's maintenance boundary
+    let bacc = model::account_of(&sim.store, &b_acc)?;
+    let h = crate::refm::health(&sim.store, &bacc, crate::refm::Req::Maint, sim.clock).ok()?;
+    if h.assets <= model::qi(0) || h.liabs <= model::qi(0) {
+        return None;
+    }
+    let now = sim.clock.unix_timestamp;
+    {
+        let info = ctx.world.bank_info_mut(&x.keys.bank)?;
+        let f = (&h.liabs / &h.assets) * model::qr(103, 100);
+        let np = (model::qu(info.price_micro) * f).ceil().to_integer().to_u64().unwrap_or(0);
+        if np == 0 || np >= info.price_micro {
+            return None;
+        }
+        info.price_micro = np;
+        let ev = match info.oracle {
+            OracleKind::Pyth => Event::SetAccount {
+                key: info.oracle_key,
+                account: Some(fixtures::pyth_account(info.feed_id, &world::pyth_from_micro(np, info.expo, 0, 0, now))),
+                why: "oracle_jump",
+            },
+            _ => Event::SetAccount {
+                key: info.oracle_key,
+                account: Some(fixtures::swb_account(&world::swb_from_micro(np, 0, now))),
+                why: "oracle_jump",
+            },
+        };
+        sim.apply(ev);
+    }
+    let bacc = model::account_of(&sim.store, &b_acc)?;
+    let h2 = crate::refm::health(&sim.store, &bacc, crate::refm::Req::Maint, sim.clock).ok()?;
+    if h2.net() <= model::qi(0) {
+        return None;
+    }
+    sim.stats.fault("drill_emode_two_debts_healthy_liquidation_attempt");
+    // the attempt (refused on a correct program: the account is healthy)
+    let liab = if ctx.rng.chance(1, 2) { &b1 } else { &b2 };
+    let xb = model::bank_of(&sim.store, &x.keys.bank)?;
+    let lbk = model::bank_of(&sim.store, &liab.keys.bank)?;
+    let mut rem: Vec<AccountMeta> = Vec::new();
+    rem.extend(world::oracle_metas_for(&xb));
+    rem.extend(world::oracle_metas_for(&lbk));
+    let q = model::account_of(&sim.store, &q_acc)?;
+    let mut lq_banks: Vec<Pubkey> = active_balances(&q).iter().map(|b| b.bank_pk).collect();
+    for k in [x.keys.bank, liab.keys.bank] {
+        if !lq_banks.contains(&k) {
+            lq_banks.push(k);
+        }
+    }
+    lq_banks.sort_by(|a, b| b.cmp(a));
+    let mut lq = Vec::new();
+    for bk in lq_banks {
+        lq.push(ix::ro(bk));
+        if let Some(bank) = model::bank_of(&sim.store, &bk) {
+            lq.extend(world::oracle_metas_for(&bank));
+        }
+    }
+    let le = risk_metas(&sim.store, &b_acc, None, None);
+    let (n_lq, n_le) = (lq.len() as u8, le.len() as u8);
+    rem.extend(lq);
+    rem.extend(le);
+    let amount = (c / 50).max(1);
+    Some(Tx::one(
+        "liquidator",
+        ix::liquidate(g.key, &x.keys, &liab.keys, q_acc, liquidator.authority, b_acc, amount, n_le, n_lq, rem),
+    ))
+}
+
 // ---------- mempool / scheduler --------------------------------------------------------------------
 
 pub fn bank_q(store: &Store, k: &Pubkey) -> Option<BankQ> {
@@ -1285,7 +1457,13 @@ pub fn step_mkt(sim: &mut Sim, ctx: &mut Ctx) {
             }
             None
         }
-        9 => act_liquidate(sim, ctx),
+        9 => {
+            if ctx.rng.chance(1, 6) {
+                drill_emode_two_debt_liquidation(sim, ctx)
+            } else {
+                act_liquidate(sim, ctx)
+            }
+        }
         10 => {
             if ctx.rng.chance(1, 2) {
                 drill_bankruptcy(sim, ctx)
